@@ -8,6 +8,7 @@ import re
 from ..ccfg import get_ccfg
 from ..cfacts import CREL, get_cfacts
 from ..core import AnalysisError, rule
+from ..cexpr import int_value
 from ..csym import feasible_paths
 
 STORES = {"PyDict_SetItem", "call_notifiers", "->post_setattr",
@@ -334,6 +335,19 @@ def prefilter(ctx, res):
                  "although no documented gate is false on the path", p)
     # ---------------- setattr_trait, deletion branch ----------------------
     no_notify = facts.macro_int("HASTRAITS_NO_NOTIFY")
+    getter_table = {m for m in facts.table("getattr_handlers") if m}
+    getters = set(getter_table)
+    from ..cexpr import callee as _callee, var as _var
+    for m in sorted(getter_table):
+        if not facts.has_func(m):
+            continue
+        ps_m = [q.name for q in facts.params(m)]
+        for x in facts.func(m).walk():
+            # helper called with the getter's own (trait, obj, name)
+            if x.kind == "CallExpr" and facts.has_func(_callee(x)) \
+                    and len(x.ch) >= 4 and [
+                        _var(a) for a in x.ch[1:4]] == ps_m[:3]:
+                getters.add(_callee(x))
     n_del = 0
     for p in paths:
         sc = SetterScan(p, valuep, traitd)
@@ -351,8 +365,12 @@ def prefilter(ctx, res):
             continue            # the deletion itself failed
         n_del += 1
         old_t = f"PyDict_GetItem({objp}->obj_dict, {namep})"
+        # the value now readable: obtained through the getter slot or
+        # directly through one of the getters / their in-file helpers
         newv = [it[3] for it in after if it[0] == "call"
-                and it[1] == "->getattr"]
+                and (it[1] == "->getattr" or it[1] in getters)
+                and len(it[2]) >= 3 and it[2][1] == objp
+                and it[2][2] == namep]
         notes = [it for it in after if it[0] == "call"
                  and it[1] == "call_notifiers"]
         for it in notes:
@@ -374,6 +392,8 @@ def prefilter(ctx, res):
                   or "->notifiers" in t
                   or (newv and null_test(t, a[2], newv[0]) is not None)
                   or t == mode_atom
+                  or (split_cmp(t, "==") and "->getattr" in t and any(
+                      x in getter_table for x in split_cmp(t, "==")))
                   or (newv and split_cmp(t, "!=")
                       and set(split_cmp(t, "!=")) == {old_t, newv[0]})
                   or _gate_category(t, traitd, mode_atom,
@@ -545,3 +565,150 @@ def ctrait_validate(ctx, res):
         raise AnalysisError("_trait_validate: accepting paths not recognised")
     # the argument order handed to the validator: (trait, object, name, value)
     res.floor(1)
+
+
+# ---------------------------------------------------------------------------
+# C02.single-notification: one operation announces (obj, name) at most once
+
+def _gate_param(ctx, facts, fname):
+    """index of an int parameter that is non-zero on every path of ``fname``
+    that reaches call_notifiers (the notification is switched by it)"""
+    params = [p.name for p in facts.params(fname)]
+    ps, _, _ = paths_of(ctx, fname)
+    gates = None
+    for p in ps:
+        if not any(it[0] == "call" and it[1] == "call_notifiers"
+                   for it in p.trace):
+            continue
+        true_params = {a[0] for a in p.atoms if a[1] is True
+                       and a[0] in params}
+        gates = true_params if gates is None else gates & true_params
+    if gates:
+        return params.index(sorted(gates)[0])
+    return None
+
+
+def _announcers_gated(ctx, facts):
+    from ..cexpr import callee, var
+    direct = {}
+    for fname in facts.defined_functions():
+        if fname == "call_notifiers":
+            continue
+        params = [p.name for p in facts.params(fname)]
+        for x in facts.func(fname).walk():
+            if x.kind == "CallExpr" and callee(x) == "call_notifiers" \
+                    and len(x.ch) >= 5:
+                o, n = var(x.ch[3]), var(x.ch[4])
+                if o in params and n in params:
+                    direct[fname] = (params.index(o), params.index(n),
+                                     _gate_param(ctx, facts, fname))
+    out = dict(direct)
+    changed = True
+    while changed:
+        changed = False
+        for fname in facts.defined_functions():
+            if fname in out or fname == "call_notifiers":
+                continue
+            params = [p.name for p in facts.params(fname)]
+            for x in facts.func(fname).walk():
+                if x.kind == "CallExpr" and callee(x) in out:
+                    oi, ni, gi = out[callee(x)]
+                    args = x.ch[1:]
+                    if gi is not None and gi < len(args) \
+                            and int_value(args[gi]) == 0:
+                        continue
+                    if oi < len(args) and ni < len(args):
+                        o, n = var(args[oi]), var(args[ni])
+                        if o in params and n in params:
+                            out[fname] = (params.index(o), params.index(n),
+                                          None)
+                            changed = True
+    return out
+
+
+@rule("C02.single-notification", ["C02", "C08", "C12"],
+      "one get/set/delete operation announces a new value of (obj, name) at "
+      "most once: no path of a C getter/setter reaches two notification "
+      "sites that report the same new value for the same pair (raw notifiers "
+      "such as the observer maintainers are not filtered and would hook the "
+      "value up twice)")
+def single_notification(ctx, res):
+    facts = get_cfacts(ctx)
+    ann = _announcers_gated(ctx, facts)
+    if "getattr_trait" not in ann and "materialize_default" not in ann:
+        raise AnalysisError("no announcing getter found (anchor moved)")
+    slot_tables = {"->getattr": "getattr_handlers",
+                   "->setattr": "setattr_handlers"}
+    n = 0
+    for fname in facts.defined_functions():
+        params = [p.name for p in facts.params(fname)]
+        fn = facts.func(fname)
+        if not any(x.kind == "CallExpr" and (
+                callee_name(x) == "call_notifiers"
+                or callee_name(x) in ann or callee_name(x) in slot_tables)
+                for x in fn.walk()):
+            continue
+        if fname not in ann and not (fname.startswith(("setattr_", "getattr_"))
+                                     or fname == "trait_property_changed"):
+            continue
+        ps, _, _ = paths_of(ctx, fname)
+        worst = None
+        for p in ps:
+            sites = []
+            for it in p.trace:
+                if it[0] != "call":
+                    continue
+                _, c, args, full, line, stmt = it
+                if c == "call_notifiers" and len(args) >= 6:
+                    sites.append((args[2], args[3], args[5], line, c))
+                elif c in ann:
+                    oi, ni, gi = ann[c]
+                    if gi is not None and gi < len(args) and args[gi] == "0":
+                        continue        # notification switched off
+                    if oi < len(args) and ni < len(args):
+                        # an announcing getter announces its own result
+                        sites.append((args[oi], args[ni], full, line, c))
+                elif c in slot_tables and len(args) >= 3:
+                    # a call through the handler slot: any table member the
+                    # path has not excluded
+                    members = [m for m in facts.table(slot_tables[c])
+                               if m in ann]
+                    recv = full.split("(", 1)[0]        # e.g. traito->getattr
+                    excluded = {a[0] for a in p.atoms
+                                if a[1] is False and "==" in a[0]}
+                    live = [m for m in members if not any(
+                        m in e and recv in e for e in excluded)]
+                    if live:
+                        oi, ni, _g = ann[live[0]]
+                        # slots take (trait, obj, name) / (traito, traitd,
+                        # obj, name, value)
+                        if oi < len(args) and ni < len(args):
+                            sites.append((args[oi], args[ni], full, line,
+                                          f"{recv} (may be {live[0]})"))
+            by_pair = {}
+            for o, nm, newv, line, what in sites:
+                by_pair.setdefault((o, nm, newv), []).append((line, what))
+            for pair, ss in by_pair.items():
+                if len(ss) > 1 and (worst is None or len(ss) > len(worst[1])):
+                    worst = (pair, ss, p)
+        n += 1
+        res.instance(fname, facts.loc(fn), paths=len(ps))
+        if worst is None:
+            res.oblige(True, fname, "", "")
+            continue
+        pair, ss, p = worst
+        res.violation(f"{fname}:notified-twice", f"{CREL}:{ss[1][0]}",
+                      f"{fname}: one path announces the same new value "
+                      f"`{pair[2][:50]}` for ({pair[0]}, {pair[1]}) "
+                      f"{len(ss)} times: "
+                      + "; ".join(f"line {l}: {w}" for l, w in ss)
+                      + " - raw notifiers (observer maintainers) see the "
+                      "same value arrive twice and hook it up twice; when it "
+                      "is later replaced one hook stays behind",
+                      [f"{CREL}:{l}" for l in dict.fromkeys(p.lines) if l])
+    res.floor(5)
+
+
+def callee_name(x):
+    from ..cexpr import callee
+    return callee(x)
